@@ -31,7 +31,7 @@ type Object struct {
 //	Vers       bucket owned by UserPlus, versioning Enabled: key V1.Key with versions V1 and V2 (= latest),
 //	           key Gone with one version and a delete marker (MarkerVersionID)
 //	Lock       bucket with object lock enabled (default retention GOVERNANCE 1 day): Locked (retention
-//	           GOVERNANCE until 2099 + legal hold ON), Free and FreeNested (lock bucket, no explicit hold)
+//	           GOVERNANCE until 2099 + legal hold ON), Free and FreeNested (stored before the default rule: no retention, no hold)
 //	Empty      empty bucket owned by User
 //	NewBucket  a name that does not exist
 //
@@ -177,11 +177,13 @@ func Seed(env *fx.Env) (*State, error) {
 
 	// Lock
 	s.ok("create lock", root.CreateBucket(st.Lock, "X-Amz-Bucket-Object-Lock-Enabled", "true"))
+	// the two "free" objects are stored before the bucket gets its default retention rule, so that they
+	// carry no retention (PutObjectRetention / PutObjectLegalHold controls must be able to act on them)
+	st.Free = s.put("free", st.Lock, "cnry-free.txt", "CNRY-free-object-content-EEEEEEEE")
+	st.FreeNested = s.put("free nested", st.Lock, "d/e/cnry-free.txt", "CNRY-free-nested-content-FFFFFFFF")
 	s.ok("lock config", root.Sub("PUT", st.Lock, "", "object-lock", []byte(LockConfigXML("GOVERNANCE", 1))))
 	st.Locked = s.put("locked", st.Lock, "cnry-locked.txt", "CNRY-locked-object-content-DDDDDDDD",
 		"X-Amz-Object-Lock-Mode", "GOVERNANCE", "X-Amz-Object-Lock-Retain-Until-Date", FarFuture, "X-Amz-Object-Lock-Legal-Hold", "ON")
-	st.Free = s.put("free", st.Lock, "cnry-free.txt", "CNRY-free-object-content-EEEEEEEE")
-	st.FreeNested = s.put("free nested", st.Lock, "d/e/cnry-free.txt", "CNRY-free-nested-content-FFFFFFFF")
 
 	// Empty (made non-empty once so that .sgwtmp exists, then handed to the user account)
 	s.ok("create empty", root.CreateBucket(st.Empty))
